@@ -45,7 +45,7 @@ META = dict(
                 "(harness/c04_probe.py). Not decided: float rounding of the derivative on non-dyadic cell sizes "
                 "beyond 1e-9 relative."),
     technique=("TLA+ reference operator + property predicates over arbitrary matrices (C04Lib.tla); TLC exhaustive; "
-               "operator extraction from the real Field.diff judged by TLC (C04Trace.tla); spec states replayed into code"),
+               "operator extraction from the real Field.diff judged by TLC (C04Trace.tla); spec states replayed into code; Apalache on the algebraic core (C04Core.tla: every stencil exact on its polynomials, unbounded)"),
     design_ref="DESIGN.md section 7 C04",
 )
 
@@ -425,6 +425,9 @@ def plan_t(ctx, units, embs):
 
 def run(ctx):
     df = core.import_library()
+    # the algebraic core (spec/C04Core.tla): Apalache discharges the exactness of every stencil for unbounded coefficients
+    from .. import apalache
+    apalache.run_stage(ctx, module="C04Core.tla", obligations=apalache.C04_OBLIGATIONS, claim=apalache.C04_CLAIM)
     embs = embed.for_tier(ctx.tier, ctx.seed)
     r = ctx.model("MC_C04", f"C04_{ctx.tier}.cfg", dump=True)
     if r.coverage:  # thorough tier runs with -coverage 1: every action must have fired (vacuity guard)
